@@ -28,7 +28,11 @@ namespace {
       void junk() { lx.get_pointer(lx.get_reference(lx.double_type())); lx.get_identifier(u8"unrelated"); lx.make_literal(lx.long_type(), u8"999"); lx.make_class(*unit.global_region()); }
       // template 6: every located node gets its own line (100 + k); nlocated counts them
       int nlocated = 0;
-      template<class D> void locate_k(D* d, const Params& p) { d->src_locus.file = File_index{ p.file }; d->src_locus.line = Line_number{ p.file ? 100u + nlocated : 0u }; d->src_locus.column = Column_number{ p.col }; ++nlocated; }
+      // p.line == 0: one file, every located node its own line (100 + k); p.line == 1: one line and column, every located node its own file (20 + k)
+      template<class D> void locate_k(D* d, const Params& p) {
+         if (p.line == 1) { d->src_locus.file = File_index{ 20u + nlocated }; d->src_locus.line = Line_number{ 100u }; }
+         else { d->src_locus.file = File_index{ p.file }; d->src_locus.line = Line_number{ p.file ? 100u + nlocated : 0u }; }
+         d->src_locus.column = Column_number{ p.col }; ++nlocated; }
       template<class D> void locate(D* d, const Params& p) { d->src_locus.file = File_index{ p.file }; d->src_locus.line = Line_number{ p.line }; d->src_locus.column = Column_number{ p.col }; }
       void build(const Params& p, const History& h) {
          auto& reg = *unit.global_region();
@@ -188,14 +192,16 @@ extern "C" void h_locations_each(void) {
    // the literal initializer of the local variable (printed before most of the locations) has one byte of each escaping class of the printer
    static const char8_t classes[] = { u8'4', 0x05, u8'\n', u8'\\', u8'"', 0x7f, 0x01, 0x1b, u8'\t', 0x80 };
    p.lit[0] = classes[vp_pick(sizeof classes)];
-   p.file = 7; p.line = 0; p.col = vp_flag() ? 9 : 0; p.print_locations = vp_flag();
+   p.file = 7; p.line = vp_flag() ? 1 : 0; p.col = vp_flag() ? 9 : 0; p.print_locations = vp_flag();      // distinct lines in one file, or one line and column in distinct files
    History h { 0, false, false, true, false };
    Graph* a = new Graph; a->build(p, h);
    std::ostringstream* oa; int ra = a->print(p.print_locations, oa);
    vp_assert(ra == 0 && a->nlocated >= 10, 20);
    for (int k = 0; k < a->nlocated; ++k) {
-      char needle[16] = "F7:100"; needle[4] = char('0' + (100 + k) / 10 % 10); needle[5] = char('0' + (100 + k) % 10);
-      int n = 6; if (p.col) { needle[n++] = ':'; needle[n++] = '9'; } needle[n++] = ' '; needle[n] = 0;
+      char needle[16] = "F7:100"; int n = 6;
+      if (p.line == 1) { needle[1] = char('0' + (20 + k) / 10); needle[2] = char('0' + (20 + k) % 10); needle[3] = ':'; needle[4] = '1'; needle[5] = '0'; needle[6] = '0'; n = 7; }
+      else { needle[4] = char('0' + (100 + k) / 10 % 10); needle[5] = char('0' + (100 + k) % 10); }
+      if (p.col) { needle[n++] = ':'; needle[n++] = '9'; } needle[n++] = ' '; needle[n] = 0;
       vp_assert(vp_stream_contains(oa, needle) == p.print_locations, 21);
       vp_observe(100 + k, vp_stream_contains(oa, needle));
    }
